@@ -41,7 +41,7 @@ def main():
                 print(pid, "no output dir")
                 continue
             notes = open(os.path.join(src, "notes.md")).read() if os.path.exists(os.path.join(src, "notes.md")) else ""
-            for which in ("ABCD" if rnd == "2" else "AB"):
+            for which in "ABCD":
                 patch = os.path.join(src, f"{which}.patch")
                 demos = [f for f in os.listdir(src) if f.lower().startswith(f"demo_{which.lower()}")]
                 if not os.path.exists(patch) or not demos:
@@ -75,6 +75,12 @@ def main():
                         _, d1 = sh(cmd, cwd=WT)
                         demo_fails_with = "test result: FAILED" in d1 or "panicked" in d1 or "error: test failed" in d1
                         log["demo_profile"] = "--release --features devices,dim_check_release"
+                    if not demo_fails_with:
+                        # ... or only with dimension checking compiled out
+                        cmd = env_off + f"cargo test --offline --release --features devices --test {name} 2>&1 | tail -30"
+                        _, d1 = sh(cmd, cwd=WT)
+                        demo_fails_with = "test result: FAILED" in d1 or "panicked" in d1 or "error: test failed" in d1
+                        log["demo_profile"] = "--release --features devices (dimension checking compiled out)"
                     sh("git checkout -- src", cwd=WT)
                     _, d2 = sh(cmd, cwd=WT)
                     demo_passes_without = "test result: ok" in d2 and "test result: FAILED" not in d2
